@@ -132,6 +132,21 @@ CHECKS = {
             "faults are injected through quantity functions; collections/Fraction/Stack are outside "
             "the guarantee as the property says",
             "section 6 C12"),
+    "C13": ("proof",
+            "Coq theorems about the transcribed accessors: for Bin (every sub-range, every arithmetic "
+            "instance) and SparselyBin (every range reaching the filled bins) one more edge than bins "
+            "and one centre and one entry per bin; the views of Bin, SparselyBin and CentrallyBin look "
+            "a value up with the very index fill routes it with; and (exact instance) the Bin a value "
+            "is filled into is the one whose edges contain it; " + TIE + ": num_bins, bin_edges, "
+            "bin_centers, bin_entries for the full range and for sub-ranges on, between and within an "
+            "ulp of edges, and bin_entries(xvalues), of all four primitives are compared with the "
+            "model; on the implementation the views are also checked against the bins, against the "
+            "full-range views (slice, cover) and against where a probe fill lands",
+            "partial: shapes of CentrallyBin / IrregularlyBin views, the partition statement for "
+            "SparselyBin / CentrallyBin / IrregularlyBin and everything about binary64 rounding of "
+            "edges are decided by the correspondence and the oracle, not proved; 2-D grids, "
+            "projections, Categorize labels and mpv are not modelled (not checked)",
+            "section 6 C13"),
     "C15": ("proof",
             "Coq theorems about the reader model for EVERY document and every arithmetic instance: "
             "an accepted document has exactly the header keys, an accepted version and a registered "
